@@ -30,7 +30,9 @@ impl Rng {
     }
 }
 
+/// hex bit pattern; every NaN is written as the canonical quiet NaN (sign and payload of NaNs are not compared)
 pub fn hx(x: f64) -> String {
+    if x.is_nan() { return "7ff8000000000000".to_string(); }
     format!("{:016x}", x.to_bits())
 }
 pub fn hxs(xs: &[f64]) -> String {
